@@ -301,7 +301,25 @@ func (f *FuncFacts) composeGuards(gs []*Guard) []*Guard {
 		for _, c := range g.ctx {
 			base = append(base, c.atom)
 		}
-		hgs := hf.Guards()
+		hgs := append([]*Guard{}, hf.Guards()...)
+		// `return g(x)` in the helper: the helper fails there exactly when g does
+		for _, ri := range hf.rets {
+			if ri.kind != retForward || ri.ins == nil {
+				continue
+			}
+			v := unspill(ri.ins.Results[len(ri.ins.Results)-1], ri.blk)
+			rej, _ := hf.rejEdges()
+			var atoms []string
+			for _, c := range hf.context(ri.blk, rej) {
+				atoms = append(atoms, c.atom)
+			}
+			xs, ys := hf.c.term(v), "nil"
+			if xs > ys {
+				xs, ys = ys, xs
+			}
+			atoms = append(atoms, xs+" != "+ys)
+			hgs = append(hgs, &Guard{Fn: hf.fn.String(), Atoms: simplifyAtoms(atoms), Code: hf.errCode(v), Pos: ri.ins.Pos(), blk: ri.blk})
+		}
 		if len(hgs) == 0 {
 			out = append(out, g)
 			continue
